@@ -26,6 +26,10 @@ namespace Dict
 def empty : Dict := fun _ _ => none
 def set (d : Dict) (b n i : Nat) : Dict :=
   fun b' n' => if b' = b ∧ n' = n then some i else d b' n'
+/-- `count` consecutive names `lo …` of bucket `b` get the consecutive ids `base …` (what `count`
+creations in a row do; one closure instead of `count`, for the big-bucket region) -/
+def setRange (d : Dict) (b lo count base : Nat) : Dict :=
+  fun b' n' => if b' = b ∧ lo ≤ n' ∧ n' < lo + count then some (base + (n' - lo)) else d b' n'
 /-- newer entries (`top`) shadow older ones -/
 def over (top bot : Dict) : Dict :=
   fun b n => match top b n with
@@ -79,6 +83,9 @@ def lookup (s : KvStore) (b n : Nat) : Option Nat :=
 /-- `kvs[string(key)] = id` in `createValue` -/
 def insert (s : KvStore) (b n i : Nat) : KvStore :=
   { s with mutable := s.mutable.set b n i, mutEmpty := false }
+
+def insertRange (s : KvStore) (b lo count base : Nat) : KvStore :=
+  { s with mutable := s.mutable.setRange b lo count base, mutEmpty := s.mutEmpty && (count == 0) }
 
 /-- `PrepareFlush`: swap only when `immutable == nil` -/
 def prepareFlush (s : KvStore) : KvStore :=
@@ -575,6 +582,9 @@ structure Cfg where
   prepareSwapsEmpty : Bool := false
   /-- `getOrCreateValue` looks into the memory maps before the persisted bucket -/
   kvMemFirst : Bool := true
+  /-- memdb index worker: `indexDB.PrepareFlush()` runs inline in the row-handler goroutine (between two rows),
+  not in the background flush goroutine -/
+  memdbPrepareInline : Bool := true
   /-- memdb `GetOrCreateTimeSeriesIndex` takes `idb.lock` exclusively (`Lock`, lindb) around its second check + store -/
   memdbExclusive : Bool := true
   /-- repair: the lock-free lookup adds a bucket to the LRU cache only while its snapshot is still current -/
@@ -836,6 +846,28 @@ def stepsBeforeCommit (sh : Shard) (j : Nat) : Nat :=
       else go (i + 1) fuel j
   go 0 5 j
 
+/-- `count` GenTagValueID calls for the new names `lo …` of tag key `tk` in a row (big-bucket region;
+the harness uses these names through this operation only) -/
+def genTagValueRange (c : Cfg) (nd : Node) (tk lo count : Nat) : Node × Nat :=
+  let base := nd.seqMem.tagValue
+  (afterAlloc c { nd with tagValue := nd.tagValue.insertRange tk lo count base,
+                          seqMem := { nd.seqMem with tagValue := base + count } }, base)
+
+/-- `GenSeriesID` for a NEW series with `PrepareFlush` of the index database landing between its two
+inserts (series dictionary entry, then metric→series posting) — what a `PrepareFlush` that runs in another
+goroutine than the row handler can do. lindb runs it inline in the row handler (memdb `handle`), so this
+is not a behaviour of lindb; `Neg.series_prepare_between_inserts` shows what it would do. -/
+def genSeriesPrepareBetween (c : Cfg) (nd : Node) (shard m ts : Nat) : Node × GenOut :=
+  let sh := nd.shards shard
+  match sh.series.lookup m ts with
+  | some i => (nd, .id i)
+  | none =>
+    let sid := sh.createSeriesID m
+    let sh1 := { sh with series := sh.series.insert m ts sid }
+    let sh2 := sh1.prepareFlushE c.prepareSwapsEmpty
+    let sh3 := { sh2 with seqCache := fun j => if j = m then some sid else sh2.seqCache j, minv := sh2.minv.put (m, sid) }
+    (nd.setShard shard sh3, .id sid)
+
 /-- the same with the fault in the schema family: ns and metric dictionaries flush normally, the kv
 commit of `metricSchemaStore.Flush` fails (the store returns the error before its locked tail: nothing is
 marked persisted, `immutable` stays), the tag value dictionary is not reached -/
@@ -893,6 +925,34 @@ def step (c : Cfg) (nd : Node) : Op → Node × Option GenOut
 def run (c : Cfg) : Node → List Op → Node
   | nd, [] => nd
   | nd, op :: rest => run c (step c nd op).1 rest
+
+/-! ## The memdb index worker (`indexDatabase.handle`): rows and flush requests from one channel -/
+
+inductive WEvent
+  | row (m ts : Nat)     -- a row of a (possibly new) series: `handleRow` → `GenSeriesID`
+  | flush                -- a `*FlushEvent`
+  deriving Repr, DecidableEq
+
+/-- the history the worker's events stand for when `PrepareFlush` runs inline in the handler goroutine -/
+def WEvent.ops (shard : Nat) : WEvent → List Op
+  | .row m ts => [.series shard m ts []]
+  | .flush => [.indexPrepare shard, .indexFlush shard]
+
+/-- what the worker does with its events. `inline = true` (lindb): the handler goroutine itself calls
+`PrepareFlush` between two rows, `Flush` follows. `inline = false`: `PrepareFlush` runs in the background flush
+goroutine (`pend` = requested, not yet run); the placement shown is "between the two inserts of the next row's
+GenSeriesID". -/
+def workerGo (inline : Bool) (c : Cfg) (shard : Nat) : Node → Bool → List WEvent → Node
+  | nd, pend, [] => if pend then (nd.indexPrepareE shard c.prepareSwapsEmpty).indexFlush shard else nd
+  | nd, pend, .row m ts :: rest =>
+    if pend then workerGo inline c shard ((nd.genSeriesPrepareBetween c shard m ts).1.indexFlush shard) false rest
+    else workerGo inline c shard (nd.genSeries c shard m ts []).1 false rest
+  | nd, pend, .flush :: rest =>
+    if inline then workerGo inline c shard ((nd.indexPrepareE shard c.prepareSwapsEmpty).indexFlush shard) pend rest
+    else workerGo inline c shard (if pend then (nd.indexPrepareE shard c.prepareSwapsEmpty).indexFlush shard else nd) true rest
+
+def workerRun (inline : Bool) (c : Cfg) (shard : Nat) (nd : Node) (evs : List WEvent) : Node :=
+  workerGo inline c shard nd false evs
 
 /-! ## Two-thread schedules used by the witness cases (and by `Neg`) -/
 
